@@ -6,6 +6,7 @@ import (
 	"math"
 	"math/rand"
 	"os"
+	"reflect"
 	"strconv"
 	"strings"
 	"sync"
@@ -115,6 +116,49 @@ func init() {
 					}
 				}
 				writeTrace(map[string]any{"ev": "scale", "n": n, "obs": obs, "stable": stable})
+			}
+		case "nsdecl":
+			// <a xmlns:p1=.. .. xmlns:pK=..><b/></a> with the xml prefix declared explicitly (to its own name, which is allowed) as the
+			// J-th declaration of the start tag, J = 0 meaning not at all: a and b each have K + 1 namespace nodes, all 2(K + 1)
+			// are different nodes with different positions, in ascending order
+			for k := 1; k <= 6; k++ {
+				for at := 0; at <= k+1; at++ {
+					var b strings.Builder
+					b.WriteString("<a")
+					for i := 1; i <= k+1; i++ {
+						if i == at {
+							b.WriteString(` xmlns:xml="http://www.w3.org/XML/1998/namespace"`)
+						}
+						if i <= k {
+							fmt.Fprintf(&b, ` xmlns:p%d="urn:u%d"`, i, i)
+						}
+					}
+					b.WriteString("><b/></a>")
+					root, err := xsel.ReadXml(strings.NewReader(b.String()))
+					if err != nil {
+						fmt.Println("scale-record: ReadXml failed:", b.String(), err)
+						return 2
+					}
+					nsOf := func(q string, opts ...xsel.ContextApply) xsel.NodeSet {
+						g := xsel.MustBuildExpr(q)
+						ns, err := xsel.ExecAsNodeset(root, &g, opts...)
+						if err != nil {
+							return nil
+						}
+						return ns
+					}
+					rootNs, childNs, all := nsOf("/a/namespace::*"), nsOf("/a/b/namespace::*"), nsOf("//namespace::*")
+					pos := map[int]bool{}
+					asc := true
+					for i, c := range all {
+						pos[c.Pos()] = true
+						if i > 0 && all[i-1].Pos() >= c.Pos() {
+							asc = false
+						}
+					}
+					union := nsOf("$x | $y", xsel.WithVariable("x", rootNs), xsel.WithVariable("y", childNs))
+					writeTrace(map[string]any{"ev": "nsdecl", "k": k, "at": at, "rootNs": len(rootNs), "childNs": len(childNs), "all": len(all), "distinctPos": len(pos), "asc": asc, "union": len(union)})
+				}
 			}
 		case "repeat":
 			// the same query on the same tree, many times (the same compiled expression and freshly compiled ones): one value.
@@ -333,8 +377,46 @@ func init() {
 						errs++
 					}
 				}
+				// ... and Unmarshal into struct types whose tags this process has never seen, by all goroutines at once
+				// (whatever Unmarshal remembers about tags or types is cold)
+				mk := func(i int) reflect.Type {
+					return reflect.StructOf([]reflect.StructField{
+						{Name: "N", Type: reflect.TypeOf(float64(0)), Tag: reflect.StructTag(fmt.Sprintf(`xsel:"count(.//*) + %d"`, r*100+i))},
+						{Name: "S", Type: reflect.TypeOf(""), Tag: reflect.StructTag(fmt.Sprintf(`xsel:"concat(name(), '#%d')"`, r*100+i))}})
+				}
+				vals := make([]string, gor)
+				wg = sync.WaitGroup{}
+				start = make(chan struct{})
+				for k := 0; k < gor; k++ {
+					wg.Add(1)
+					go func(k int) {
+						defer wg.Done()
+						defer func() {
+							if p := recover(); p != nil {
+								vals[k] = fmt.Sprint("panic: ", p)
+							}
+						}()
+						<-start
+						t := reflect.New(mk(k % 2)) // two fresh types per round, each used by four goroutines
+						err := xsel.Unmarshal(xsel.NodeSet{ctx}, t.Interface())
+						vals[k] = fmt.Sprint(t.Elem().Interface(), err)
+					}(k)
+				}
+				close(start)
+				wg.Wait()
+				for k := 0; k < gor; k++ {
+					t := reflect.New(mk(k % 2))
+					err := xsel.Unmarshal(xsel.NodeSet{ctx}, t.Interface())
+					evals++
+					if vals[k] != fmt.Sprint(t.Elem().Interface(), err) {
+						wrong++
+					}
+					if strings.HasPrefix(vals[k], "panic") {
+						errs++
+					}
+				}
 			}
-			writeTrace(map[string]any{"ev": "deepconc", "depth": 0, "goroutines": gor, "rounds": evals / gor, "evals": evals, "wrong": wrong, "errors": errs})
+			writeTrace(map[string]any{"ev": "deepconc", "depth": 0, "goroutines": 2 * gor, "rounds": evals / (2 * gor), "evals": evals, "wrong": wrong, "errors": errs})
 		default:
 			return 2
 		}
